@@ -215,6 +215,16 @@ func runC08(r *Run) {
 	// asyncLimit: the limit is changed by another goroutine while the reader is
 	// already blocked waiting for the next message (which then arrives)
 	asyncLimit := special == 0 && t.Pct(30)
+	// concWriter: the application keeps writing small messages from another
+	// goroutine through a pipe of 8 bytes, so that every frame - the 1009 Close
+	// frame too - takes several transport writes, with Write calls starting and
+	// failing while it is on its way. It must still arrive.
+	concWriter := special == 0 && !asyncLimit && api <= 1 && plan[len(plan)-1].over && t.Pct(40)
+	if concWriter {
+		rc.Lib.Out().Cap = 8
+		rc.Lib.Out().HardCap = true
+		r.S.Count("probe.writes-concurrent-with-the-1009-close")
+	}
 	rc.Lib.In().RChunk = t.Weighted(5, 0, 1, 2, 3)
 	rc.Lib.In().OpBudget = 1500
 	r.S.Stick = []int{0, 60}[t.Draw(2)]
@@ -334,6 +344,16 @@ func runC08(r *Run) {
 		}
 		runtime.ReadMemStats(&ms1)
 	})
+	if concWriter {
+		r.S.Go("appwriter", func() {
+			for i := 0; i < 200; i++ {
+				r.S.Park("a.appwriter")
+				if err := c.Write(context.Background(), websocket.MessageText, []byte{'w'}); err != nil {
+					return
+				}
+			}
+		})
+	}
 	r.S.Go("peer", func() { peer.Drain() })
 	r.S.Loop()
 	if r.S.Aborted != "" {
